@@ -1,10 +1,17 @@
 #!/bin/sh
-# Build the framework from files on disk only (offline): Lean model, drivers and every proof module,
-# then the two Rust harnesses against /repo's working tree.
+# Build the framework from files on disk only (offline): Lean model, drivers and every proof module, then the translation tie
+# (regenerated from /repo's working tree) and the two Rust harnesses against /repo's working tree.
+# Everything that depends only on /verif must build (set -e). What depends on /repo's CURRENT SOURCE -- the generated Lean text
+# with its tie theorems, and the harnesses -- is attempted and, if it fails, left to the checks, which rebuild it on every run
+# and report it (a changed /repo must not make the setup itself fail).
 set -e
 cd "$(dirname "$0")"
 export CARGO_NET_OFFLINE=true
 mkdir -p work evidence replays
-(cd lean && lake build SLV slvmodel slvarr)
-(cd harness && cargo build --release --offline)
-(cd harness_arr && cargo build --release --offline)
+MODS=$(sed -n 's/^import \(SLV\.[A-Za-z0-9_.]*\)$/\1/p' lean/SLV.lean | grep -v '^SLV\.Gen\.' | tr '\n' ' ')
+(cd lean && lake build slvmodel slvarr $MODS)
+tools/regen.sh >/dev/null 2>&1 || echo "setup: translator reported holes or failed (the checks report the affected tie theorems)"
+(cd lean && lake build SLV.Gen.BiTie SLV.Gen.MulTie SLV) || echo "setup: the translation tie does not check against /repo's current source (reported by the checks)"
+(cd harness && cargo build --release --offline) || echo "setup: harness does not build against /repo's current source (reported by the checks)"
+(cd harness_arr && cargo build --release --offline) || echo "setup: array harness does not build against /repo's current source (reported by the checks)"
+exit 0
